@@ -265,7 +265,9 @@ func runE2E(dir string, seed uint64, tier string) {
 		if onlyCase != 0 && onlyCase != id {
 			continue
 		}
-		ok := runE2ECase(res, id, label, sc, data, allSelector, fail)
+		ok := false
+		caseID, caseSc, caseData := id, sc, data
+		e2eWatchdog(res, dir, caseID, label, func() { ok = runE2ECase(res, caseID, label, caseSc, caseData, allSelector, fail) })
 		if ok {
 			completed++
 		}
